@@ -57,6 +57,8 @@ def verify_function(c, variant=None, vname=''):
         try:
             bound = c.setup(ip, variant)
             a = A(bound)
+            for f in c.axioms(ip, a):
+                st.assume(f)
             for item in c.requires(ip, a):
                 st.assume(item[1])
             if not st.feasible():
